@@ -185,6 +185,15 @@ func main() {
 			fmt.Fprintln(os.Stderr, "hist: need hist:gen, or hist:fwd|hist:rev <object file>")
 			os.Exit(2)
 		}
+	case "ops":
+		// execute the operation lines of a file (model-based search, bin/check step "search")
+		if len(os.Args) < 5 {
+			fmt.Fprintln(os.Stderr, "usage: harness ops <tier> <seed> <file>")
+			os.Exit(2)
+		}
+		streamOps(os.Args[4])
+	case "sweep20":
+		streamSweep20()
 	case "replay":
 		// replay one op line (without the impl part) given as remaining args
 		replay(os.Args[4:])
